@@ -444,20 +444,17 @@ class Interp:
                 raise Unsupported(ins)
             a = self.operand(st, mm.group(1), mm.group(2))
             b = self.operand(st, mm.group(1), mm.group(3))
-            if " nsw " in ins + " ":
-                # signed overflow is undefined behaviour: make it an obligation
-                ok = {"add": lambda: z3.BVAddNoOverflow(a, b, True) if True else None,
-                      "sub": lambda: z3.BVSubNoOverflow(a, b),
-                      "mul": lambda: z3.BVMulNoOverflow(a, b, True)}.get(op)
-                if ok is not None:
-                    cond = ok()
-                    if op == "add":
-                        cond = z3.And(z3.BVAddNoOverflow(a, b, True), z3.BVAddNoUnderflow(a, b))
-                    elif op == "sub":
-                        cond = z3.And(z3.BVSubNoOverflow(a, b), z3.BVSubNoUnderflow(a, b, True))
-                    cond = _c(cond)
-                    if not z3.is_true(cond):
-                        st.oob.append(("signed overflow in `%s`" % ins, list(st.pc), cond))
+            if " nsw " in ins + " " and op in ("add", "sub", "mul"):
+                # signed overflow is undefined behaviour: make its absence an obligation
+                if op == "add":
+                    cond = z3.And(z3.BVAddNoOverflow(a, b, True), z3.BVAddNoUnderflow(a, b))
+                elif op == "sub":
+                    cond = z3.And(z3.BVSubNoOverflow(a, b), z3.BVSubNoUnderflow(a, b, True))
+                else:
+                    cond = z3.And(z3.BVMulNoOverflow(a, b, True), z3.BVMulNoUnderflow(a, b))
+                cond = _c(cond)
+                if not z3.is_true(cond):
+                    st.oob.append(("signed overflow in `%s`" % ins, list(st.pc), cond))
             f = {"xor": lambda: a ^ b, "or": lambda: a | b, "and": lambda: a & b, "shl": lambda: a << b,
                  "lshr": lambda: z3.LShR(a, b), "ashr": lambda: a >> b, "add": lambda: a + b,
                  "sub": lambda: a - b, "mul": lambda: a * b}[op]
